@@ -161,6 +161,22 @@ Theorem C07_lw_batch_rowwise : forall b c e rows rows',
 Proof. exact lw_evidence_node_rowwise. Qed.
 Print Assumptions C07_lw_batch_rowwise.
 
+(* simulate(): the CPDs the wrapper installs are proper columns, so the forward / rejection theorems apply to the
+   network it samples from: an intervened variable gets a parent-free point mass on its do-value (sum 1, for
+   state names without repetition that contain the value - what simulate checks), and the auxiliary child of a
+   virtual evidence / virtual intervention on x has, for every state k of x, the column (q_k, 1 - q_k). *)
+Theorem C07_simulate_surgery_columns :
+  (forall b c st, NoDup (namesf b (cvar c)) -> In st (namesf b (cvar c)) ->
+     cpars (do_cpd b c st) = [] /\ qsum (cvals (do_cpd b c st)) = 1) /\
+  (forall nv x (q : list Qc) k, (k < length q)%nat ->
+     nth k (cvals (virt_cpd nv x q)) 0 + nth (length q + k) (cvals (virt_cpd nv x q)) 0 = 1).
+Proof.
+  split.
+  - intros b c st Hn Hi. split; [reflexivity|]. unfold do_cpd. simpl. apply point_mass_sum; assumption.
+  - intros nv x q k H. apply virt_cpd_column. exact H.
+Qed.
+Print Assumptions C07_simulate_surgery_columns.
+
 (* What the property needs from _adjusted_weights.  Every law theorem above is about the ADJUSTED vector:
    Model.fwd_dist / lw_dist draw from [node_w] = adjusted (node_dist ...), the vector pgmpy hands to
    numpy.random.choice (compared call by call in the correspondence run).  Under wf_bn the columns sum to
